@@ -90,6 +90,14 @@ deriving Repr
 def Score.beats (sc : Score) (t : Int) : Rat :=
   rawBeats sc.divs sc.ts t - pickupShift sc.divs sc.ts sc.ms
 
+/-- position of `t` in quarters, counted from the point where the beat count is 0 as the importer counts
+    quarters (4/beat type quarters per beat of the FIRST time signature up to its start, `1/divs` per division
+    from there on) -/
+def Score.quarters (sc : Score) (t : Int) : Rat :=
+  match sc.ts with
+  | [] => 0
+  | s :: _ => 4 * sc.beats s.t / (s.den : Rat) + ((t - s.t : Int) : Rat) / (sc.divs : Rat)
+
 /-- `start_measure_num`: 0 if some measure starts at a negative beat, else 1 -/
 def Score.firstMeasureNumber (sc : Score) : Int :=
   if sc.ms.any (fun m => sc.beats m.s < 0) then 0 else 1
@@ -203,16 +211,52 @@ def timeMapKnots (ps : List MatchedPair) : List (Rat × Rat) :=
     (mean ((ps.filter fun p => p.sOnset = u && p.hasDur).map (·.pOnset))).map fun m => (m, u)
   sortBy (fun a b => decide (a.1 ≤ b.1)) ks
 
-/-- sort key of a note line: `(onset_beats, doc_order)` or `(ptime_to_stime(note_on), midi_pitch)` -/
+/-- `ptime_to_stime_map`: the score time of a performed time; no matched onset: no map (NaN, fix C08-13); one
+    matched onset: `partitura.utils.generic.interp1d` returns its score time everywhere; else scipy's linear
+    interpolation with extrapolation -/
+def timeMapKey (knots : List (Rat × Rat)) (t : Rat) : Option Rat :=
+  match knots with
+  | [] => none
+  | [(_, y)] => some y
+  | _ => interpLin knots t
+
+/-- sort key of a note line: `(onset_beats, doc_order)` or `(ptime_to_stime(note_on), midi_pitch)`;
+    `k1 = none` is NaN: there is no time map when no score onset carries a matched note with a duration
+    (fix C08-13; with one such onset `partitura.utils.generic.interp1d` returns its score time everywhere) -/
 structure LineKey where
-  k1 : Rat
+  k1 : Option Rat
   k2 : Int
 deriving Repr, DecidableEq
 
+/-- the order `np.lexsort((k2, k1))` sorts by: k1 first (NaN after every number, NaNs equal), then k2 -/
+def keyLe (a b : LineKey) : Bool :=
+  match a.k1, b.k1 with
+  | some x, some y => decide (x < y) || (decide (x = y) && decide (a.k2 ≤ b.k2))
+  | some _, none => true
+  | none, some _ => false
+  | none, none => decide (a.k2 ≤ b.k2)
+
+/-- the note lines paired with their position in the alignment, in the order they are written -/
+def lexsortPairs (keys : List LineKey) : List (Nat × LineKey) :=
+  sortBy (fun a b => keyLe a.2 b.2) ((List.range keys.length).zip keys)
+
 /-- `np.lexsort((k2, k1))`: stable sort by k1 then k2; returns the indices -/
-def lexsortIdx (keys : List LineKey) : List Nat :=
-  let idx := (List.range keys.length).zip keys
-  (sortBy (fun a b => decide (a.2.k1 < b.2.k1) || (decide (a.2.k1 = b.2.k1) && decide (a.2.k2 ≤ b.2.k2))) idx).map (·.1)
+def lexsortIdx (keys : List LineKey) : List Nat := (lexsortPairs keys).map (·.1)
+
+/-- an alignment entry as the line sorter sees it: a score line (match, deletion) with its onset in beats and
+    document order, or a performed-only line (insertion, ornament) with its onset in seconds and MIDI pitch -/
+inductive OrdEntry
+  | score (onsetBeats : Rat) (docOrder : Int)
+  | perf (noteOn : Rat) (pitch : Int)
+deriving Repr
+
+def lineKey (knots : List (Rat × Rat)) : OrdEntry → LineKey
+  | .score b d => { k1 := some b, k2 := d }
+  | .perf t p => { k1 := timeMapKey knots t, k2 := p }
+
+/-- the order in which the note lines of an alignment are written (indices into the alignment) -/
+def writtenOrder (ps : List MatchedPair) (es : List OrdEntry) : List Nat :=
+  lexsortIdx (es.map (lineKey (timeMapKnots ps)))
 
 /-- pedal lines: sustain (64) and soft (67) events in input order, then stably sorted by tick -/
 def pedalLines (mpq ppq : Nat) (cs : List (Nat × Rat × Int)) : List (Nat × Int × Int) :=
@@ -320,6 +364,31 @@ structure TSLine where
   num : Nat
   den : Nat
 deriving Repr, DecidableEq, Inhabited
+
+/-- the time-signature lines of the file of a score: one line per time signature, at the four-decimal beat
+    time of the signature (`mnum`: the measure number written on the line) -/
+def Score.tsLines (sc : Score) (mnum : Int → Int) : List TSLine :=
+  sc.ts.map fun s => { timeB := dec4 (sc.beats s.t), measure := mnum s.t, num := s.num, den := s.den }
+
+/-- the four-decimal beat time `b` of a note at `o` lies in the four-decimal stretch of the time signature in
+    force at `o`: at or after the written time of that signature and of every earlier one, before the written
+    time of the next one -/
+def segOK (beats : Int → Rat) : List TSig → Int → Rat → Bool
+  | [], _, _ => true
+  | [s], _, b => decide (dec4 (beats s.t) ≤ b)
+  | s :: s' :: rest, o, b =>
+    decide (dec4 (beats s.t) ≤ b) &&
+      (if o < s'.t then decide (b < dec4 (beats s'.t)) else segOK beats (s' :: rest) o b)
+
+/-- what the four-decimal rendering of the beat times of the time-signature CHANGES before `o` adds to the
+    importer's beats→quarters map at `o`: each change moves the kink of the map by the rounding error of its
+    written time, which costs that error times the difference of the two slopes `4/den` -/
+def knotErr (beats : Int → Rat) : List TSig → Int → Rat
+  | [], _ => 0
+  | [_], _ => 0
+  | s :: s' :: rest, o =>
+    if o < s'.t then 0
+    else 4 * (dec4 (beats s'.t) - beats s'.t) * (1 / (s.den : Rat) - 1 / (s'.den : Rat)) + knotErr beats (s' :: rest) o
 
 /-- `MatchFile.time_signatures` / `key_signatures`: sort by time (stable), then drop an entry whose
     VALUE equals the last kept one -/
@@ -475,5 +544,41 @@ def reconstruct (raw : List SNote) (ts : List TSLine) (ks : List (Rat × Int)) :
          tsPos := (keepInForce (ts.map fun s => (sigPos s.measure s.timeB, (s.num, s.den)))).map
                     fun (p, n, d) => (clip p, n, d)
          ksPos := (keepInForce (ks.map fun k => (sigPos k.2 k.1, ()))).map fun (p, _) => clip p }
+
+/-! ## end to end: write, then read -/
+
+/-- the snote the reader gets from the score-side fields the exporter wrote (fractions reduced, beat times with
+    four decimals) -/
+def STime.toSNote (st : STime) : SNote :=
+  { measure := st.measure, beat := st.beat, offset := Frac.ofRat st.offset, dur := Frac.ofRat st.dur, comps := [],
+    onsetB := dec4 st.onsetB, offsetB := dec4 st.offsetB }
+
+/-- the score-side fields of the stored notes (onset, tied duration), in file order -/
+def Score.storedLines (sc : Score) (stored : List (Int × Int)) : Option (List STime) :=
+  stored.mapM fun (o, d) => do
+    let mi ← sc.measureOf o
+    sc.encode mi o d
+
+/-- what the file says about the score: the stored notes' fields and the position fields of the signature lines -/
+def Score.fileView (sc : Score) (stored : List (Int × Int)) (sigTimes : List Int) :
+    Option (List STime) × List (Nat × SigLine) :=
+  (sc.storedLines stored, sc.sigLines sigTimes)
+
+/-- the time-signature lines of the file as `MatchFile.time_signatures` returns them -/
+def Score.readTS (sc : Score) : List TSLine :=
+  collapse (·.timeB) (fun a b => a.num == b.num && a.den == b.den)
+    ((sc.sigLines (sc.ts.map (·.t))).filterMap fun (k, l) =>
+      sc.ts[k]?.map fun s => ({ timeB := dec4 l.timeB, measure := l.measure, num := s.num, den := s.den } : TSLine))
+
+/-- the key-signature lines (time in divs, identity of the value) as `MatchFile.key_signatures` returns them -/
+def Score.readKS (sc : Score) (ks : List (Int × Nat)) : List (Rat × Int) :=
+  (collapse (·.1) (fun a b => a.2.2 == b.2.2)
+    ((sc.sigLines (ks.map (·.1))).filterMap fun (k, l) =>
+      ks[k]?.map fun x => (dec4 l.timeB, l.measure, x.2))).map fun k => (k.1, k.2.1)
+
+/-- `load_match(save_match(...), create_score=True)` on the score side, in the model -/
+def Score.roundTrip (sc : Score) (stored : List (Int × Int)) (ks : List (Int × Nat)) : Option Recon := do
+  let sts ← sc.storedLines stored
+  reconstruct (sts.map STime.toSNote) sc.readTS (sc.readKS ks)
 
 end Model.MatchTime
